@@ -259,14 +259,19 @@ func c19Exec(op string) (string, *Violation) {
 		sig := "wrong-state"
 		// classifier for the recorded finding: minimum missing, answer later than the first
 		// qualifying state, and every id requested below the answer was a 404
+		// (and the lookup did ask for the minimum and got a 404 - that is what sends it into findBound's ascent: an
+		// answer reached without probing below it is not the recorded finding)
 		if _, minOK := rt.avail(1); !minOK && seq > want {
-			all404 := true
+			all404, askedMin := true, false
 			for i, sq := range rt.seqs {
 				if sq > 0 && uint64(sq) < seq && rt.codes[i] != 404 {
 					all404 = false
 				}
+				if sq == 1 && rt.codes[i] == 404 {
+					askedMin = true
+				}
 			}
-			if all404 {
+			if all404 && askedMin {
 				sig = "findBound-sparse-low-end"
 			}
 		}
@@ -382,6 +387,17 @@ func c19Gen(r *Rng, tier string, emit func(string)) {
 			if r.Bool() {
 				runs = append(runs, run{s + 1 + r.Intn(10), s + 12 + r.Intn(5)})
 			}
+		}
+		if kind == "changesets" && r.Chance(12) {
+			// changeset replication where planet's directory begins (the source declares 2007990 as its first
+			// state): a dense directory that starts a little below or above that number
+			s := 2007990 - 40 + r.Intn(60)
+			rng = 2007990
+			if s > rng {
+				rng = s
+			}
+			rng += 1 + r.Intn(60)
+			runs = []run{{s, rng}}
 		}
 		if len(runs) == 0 {
 			runs = []run{{1, 1}}
